@@ -100,6 +100,24 @@ class Run:
             out.append((unit.name + '::' + vc.oid, vc, r))
         if canary:
             return out, eng
+        # vacuity guard: for every function at least one exit path must have satisfiable hypotheses
+        exits = {}
+        for vc in eng.vcs:
+            f = vc.oid.split('/')[0]
+            if '/post:' in vc.oid or '/raises:' in vc.oid:
+                exits.setdefault(f, {}).setdefault(vc.path, vc)
+        cov_vcs = [(f, vc) for f, d in exits.items() for vc in list(d.values())[:6]]
+        cres = solve.cover([vc for f, vc in cov_vcs], axioms, pins or None, budget_s=4, nproc=self.nproc)
+        reach = {}
+        for (f, vc), r in zip(cov_vcs, cres):
+            reach.setdefault(f, []).append(r)
+        for f, rs in reach.items():
+            self.extra_cov.setdefault('reachable_exit_paths', {})[unit.name + '::' + f] = {x: rs.count(x) for x in set(rs)}
+            if 'sat' not in rs and not any(u[0].endswith(f) for u in eng.unsupported):
+                if all(x.startswith('unsat') for x in rs):
+                    self.faults.append('vacuous: no exit path of %s (unit %s) has satisfiable hypotheses' % (f, unit.name))
+                else:
+                    self.notes.append('reachability of %s (unit %s) undetermined: %s' % (f, unit.name, rs))
         self.prims_used |= set(P.used)
         self.solver_secs += sum(r.get('secs', r.get('wall', 0)) for r in res)
         for key in unit.keys:
@@ -221,9 +239,8 @@ class Run:
         path = os.path.join(ROOT, 'lemmas', fname)
         t = time.time()
         try:
-            p = subprocess.run(['lean', path], capture_output=True, text=True, timeout=1500,
-                               env=dict(os.environ, LEAN_PATH=_lean_path()))
-            ok = p.returncode == 0 and 'error' not in p.stdout and 'sorry' not in (p.stdout + p.stderr)
+            p = subprocess.run(['lean', path], capture_output=True, text=True, timeout=1500)
+            ok = p.returncode == 0 and 'error:' not in p.stdout and 'sorry' not in (p.stdout + p.stderr)
             out = (p.stdout + p.stderr)[-500:]
         except Exception as ex:
             ok, out = False, str(ex)
